@@ -46,3 +46,6 @@ Example C10_example :
   let e := {| e_index := 9; e_leader := None; e_cmd := CTxn [] [] [] |} in
   ack_of [] e = {| r_value := 1; r_rev := 9; r_resps := []; r_data := true |}.
 Proof. vm_compute. reflexivity. Qed.
+
+(* every remaining property theorem of this file *)
+Print Assumptions C10_read_paths.
